@@ -30,13 +30,9 @@ impl Vm {
             if cycles % 8192 == 0 {
                 self.run_gc();
             }
-            if cycles == count {
-                self.run_gc();
-                return Ok(None);
-            }
             match self.run_one() {
                 Ok(true) => break,
-                Ok(false) => continue,
+                Ok(false) => {}
                 Err(e) => {
                     self.last_stacktrace = Some(StackTrace::new(
                         &self.stack,
@@ -46,6 +42,12 @@ impl Vm {
                     ));
                     return Err(e);
                 }
+            }
+            // The budget is checked after the instruction so that every slice,
+            // including run_count(1), makes progress.
+            if cycles == count {
+                self.run_gc();
+                return Ok(None);
             }
         }
         trace!("cycles: {}", cycles);
